@@ -11,7 +11,7 @@ use std::time::Duration;
 use vcore::{prop_search, Outcome, Run, Search};
 use wire::*;
 
-const RULE: &str = "end-to-end: histories of 1..5 connection-level events sent by the raw peer on either role — control stream opened with {valid SETTINGS, DATA first, HEADERS first, GREASE first, reserved setting id, duplicated setting id}; then {duplicate control stream, QPACK encoder/decoder stream (+ duplicate), unknown / GREASE uni stream, FIN or RESET of a critical stream, a frame of any type (DATA, HEADERS, SETTINGS, GREASE, unknown, WT signal) cut short by FIN inside its type, inside its length, right after its length or inside its payload on the control stream / as first frame of a new bidi stream / on the session stream, uni stream finished or reset inside its type varint, DATA / HEADERS / second SETTINGS / oversize / GREASE frame on the control stream, request whose first frame is DATA or SETTINGS, GET request, CONNECT without :protocol, WT streams with valid and invalid session ids, GREASE then WT signal on a bidi stream, SETTINGS / HEADERS / WT signal / GREASE on the established session stream}. Reference model (RFC 9114 §4.1, §6.2, §6.2.1, §7.2.x, RFC 9204 §4.2, WT draft): each event maps to continue / refuse that stream (code) / close the connection (admissible code set). Oracle: the first closing event decides the CONNECTION_CLOSE code seen by the raw peer and the local API error; histories without a closing event leave the session usable (fresh stream echo), and refused requests carry the prescribed STOP_SENDING code. Non-trivial: the history contains an event whose prescribed reaction is not 'continue'; distinct = distinct history";
+const RULE: &str = "end-to-end: histories of 1..5 connection-level events sent by the raw peer on either role — answer of the raw server to the client's CONNECT in {HEADERS, GREASE / unknown frame then HEADERS, DATA first, SETTINGS first, WT signal first, any frame truncated by FIN}; control stream opened with {valid SETTINGS, DATA first, HEADERS first, GREASE first, reserved setting id, duplicated setting id}; then {duplicate control stream, QPACK encoder/decoder stream (+ duplicate), unknown / GREASE uni stream, FIN or RESET of a critical stream, a frame of any type (DATA, HEADERS, SETTINGS, GREASE, unknown, WT signal) cut short by FIN inside its type, inside its length, right after its length or inside its payload on the control stream / as first frame of a new bidi stream / on the session stream, uni stream finished or reset inside its type varint, DATA / HEADERS / second SETTINGS / oversize / GREASE frame on the control stream, request whose first frame is DATA or SETTINGS, GET request, CONNECT without :protocol, WT streams with valid and invalid session ids, GREASE then WT signal on a bidi stream, SETTINGS / HEADERS / WT signal / GREASE on the established session stream}. Reference model (RFC 9114 §4.1, §6.2, §6.2.1, §7.2.x, RFC 9204 §4.2, WT draft): each event maps to continue / refuse that stream (code) / close the connection (admissible code set). Oracle: the first closing event decides the CONNECTION_CLOSE code seen by the raw peer and the local API error; histories without a closing event leave the session usable (fresh stream echo), and refused requests carry the prescribed STOP_SENDING code. Non-trivial: the history contains an event whose prescribed reaction is not 'continue'; distinct = distinct history";
 
 #[derive(Clone, Debug, Serialize, Deserialize, PartialEq)]
 pub enum Ev {
@@ -62,12 +62,29 @@ pub enum Pre {
     DuplicateSetting,
 }
 
+/// What the raw server puts on the request stream in answer to the client's CONNECT
+/// (wtransport client role only).
+#[derive(Clone, Copy, Debug, Default, Serialize, Deserialize, PartialEq)]
+pub enum Resp {
+    #[default]
+    Normal,
+    GreaseFirst,
+    UnknownFirst,
+    DataFirst,
+    SettingsFirst,
+    WtSignalFirst,
+    /// a frame cut short by FIN instead of the response
+    Truncated(u8, u8),
+}
+
 #[derive(Clone, Debug, Serialize, Deserialize)]
 pub struct Case {
     pub flavor: u8,
     pub wt_is_server: bool,
     pub pre: Pre,
     pub events: Vec<Ev>,
+    #[serde(default)]
+    pub resp: Resp,
 }
 
 #[derive(Clone, Debug, PartialEq)]
@@ -159,6 +176,33 @@ fn pre_reaction(pre: Pre) -> Reaction {
     }
 }
 
+fn resp_reaction(resp: Resp) -> Reaction {
+    match resp {
+        Resp::Normal | Resp::GreaseFirst | Resp::UnknownFirst => Reaction::Continue,
+        // RFC 9114 §4.1: a DATA frame before any HEADERS frame is an invalid sequence -> H3_FRAME_UNEXPECTED
+        Resp::DataFirst => Reaction::Close(vec![reg::H3_FRAME_UNEXPECTED]),
+        // §7.2.4: SETTINGS on a request stream
+        Resp::SettingsFirst => Reaction::Close(vec![reg::H3_FRAME_UNEXPECTED]),
+        Resp::WtSignalFirst => Reaction::Close(vec![reg::H3_FRAME_UNEXPECTED, reg::H3_FRAME_ERROR]),
+        Resp::Truncated(..) => Reaction::Close(vec![reg::H3_FRAME_ERROR]),
+    }
+}
+
+fn resp_bytes(resp: Resp, session: u64) -> Vec<u8> {
+    let ok = response_frame("200", &[]);
+    let mut v = match resp {
+        Resp::Normal => vec![],
+        Resp::GreaseFirst => refcodec::enc_frame(refcodec::grease(8), b"before the response"),
+        Resp::UnknownFirst => refcodec::enc_frame(0x0f, b"unknown"),
+        Resp::DataFirst => refcodec::enc_frame(reg::FRAME_DATA, b"early-body"),
+        Resp::SettingsFirst => refcodec::enc_frame(reg::FRAME_SETTINGS, &[]),
+        Resp::WtSignalFirst => refcodec::enc_bi_header_wt(session),
+        Resp::Truncated(sel, cut) => return truncated_frame(sel, cut),
+    };
+    v.extend(ok);
+    v
+}
+
 fn ev_strategy() -> impl Strategy<Value = Ev> {
     prop_oneof![
         Just(Ev::DuplicateControl),
@@ -199,7 +243,16 @@ fn ev_strategy() -> impl Strategy<Value = Ev> {
 
 pub fn case_strategy() -> impl Strategy<Value = Case> {
     let pre = prop_oneof![8 => Just(Pre::Valid), 1 => Just(Pre::DataFirst), 1 => Just(Pre::HeadersFirst), 1 => Just(Pre::GreaseFirst), 1 => (0u8..5).prop_map(Pre::ReservedSetting), 1 => Just(Pre::DuplicateSetting)];
-    (0u8..3, any::<bool>(), pre, proptest::collection::vec(ev_strategy(), 1..6)).prop_map(|(flavor, wt_is_server, pre, events)| Case { flavor, wt_is_server, pre, events })
+    let resp = prop_oneof![
+        6 => Just(Resp::Normal),
+        1 => Just(Resp::GreaseFirst),
+        1 => Just(Resp::UnknownFirst),
+        1 => Just(Resp::DataFirst),
+        1 => Just(Resp::SettingsFirst),
+        1 => Just(Resp::WtSignalFirst),
+        1 => (any::<u8>(), any::<u8>()).prop_map(|(a, b)| Resp::Truncated(a, b)),
+    ];
+    (0u8..3, any::<bool>(), pre, proptest::collection::vec(ev_strategy(), 1..6), resp).prop_map(|(flavor, wt_is_server, pre, events, resp)| Case { flavor, wt_is_server, pre, events, resp: if wt_is_server { Resp::Normal } else { resp } })
 }
 
 /// A frame cut short: type by `sel` (DATA, HEADERS, SETTINGS, 1- and 2-byte GREASE, three unknown
@@ -447,7 +500,11 @@ impl Peer {
 
 async fn exec_async(case: Arc<Case>) -> CaseResult {
     let t = Tuning::default();
-    let pre_react = pre_reaction(case.pre);
+    let resp = if case.wt_is_server { Resp::Normal } else { case.resp };
+    let pre_react = match pre_reaction(case.pre) {
+        Reaction::Continue => resp_reaction(resp),
+        r => r,
+    };
     // --- establish (or fail to) with the chosen control-stream opening
     let app: Option<wtransport::Connection>;
     let mut peer: Peer;
@@ -516,7 +573,10 @@ async fn exec_async(case: Arc<Case>) -> CaseResult {
                     let sid = quinn::VarInt::from(rs.id()).into_inner();
                     let mut buf = Vec::new();
                     let _ = read_frame_of(&mut rr, &mut buf, &[reg::FRAME_HEADERS], Duration::from_secs(3)).await;
-                    let _ = rs.write_all(&response_frame("200", &[])).await;
+                    let _ = rs.write_all(&resp_bytes(resp, sid)).await;
+                    if matches!(resp, Resp::Truncated(..)) {
+                        let _ = rs.finish();
+                    }
                     Ok::<_, String>((conn, control, Some(rs), Some(rr), sid))
                 }
                 _ => Ok((conn, control, None, None, 0)),
@@ -558,12 +618,12 @@ async fn exec_async(case: Arc<Case>) -> CaseResult {
                     // local API error names the same code
                     match &establish_err {
                         Some(err) if codes.iter().any(|c| err == &format!("LocalH3Error({})", h3_display(*c))) || err == "LocallyClosed" => CaseResult::Pass { nontrivial: true, labels },
-                        other => viol("C12:e2e:local-error", format!("control stream opened with {:?}: peer saw close {c:#x} but the local API reported {:?}", case.pre, other)),
+                        other => viol("C12:e2e:local-error", format!("control stream opened with {:?}, response {:?}: peer saw close {c:#x} but the local API reported {:?}", case.pre, resp, other)),
                     }
                 }
-                other => viol(format!("C12:e2e:pre:{:?}", case.pre), format!("control stream opened with {:?}: peer saw {:?}, prescribed CONNECTION_CLOSE with one of {:x?}", case.pre, other, codes)),
+                other => viol(format!("C12:e2e:pre:{:?}:{}", case.pre, resp_name(resp)), format!("control stream opened with {:?}, response {:?}: peer saw {:?}, prescribed CONNECTION_CLOSE with one of {:x?}", case.pre, resp, other, codes)),
             },
-            Err(_) => viol(format!("C12:e2e:pre:{:?}", case.pre), format!("control stream opened with {:?}: the endpoint did not close the connection (prescribed {:x?}); establishment result {:?}", case.pre, codes, establish_err)),
+            Err(_) => viol(format!("C12:e2e:pre:{:?}:{}", case.pre, resp_name(resp)), format!("control stream opened with {:?}, response {:?}: the endpoint did not close the connection (prescribed {:x?}); establishment result {:?}", case.pre, resp, codes, establish_err)),
         };
     }
     let Some(app) = app else {
@@ -662,6 +722,11 @@ async fn exec_async(case: Arc<Case>) -> CaseResult {
     CaseResult::Pass { nontrivial, labels }
 }
 
+fn resp_name(r: Resp) -> String {
+    let s = format!("{r:?}");
+    s.split('(').next().unwrap_or("").to_string()
+}
+
 fn ev_name(e: &Ev) -> String {
     let s = format!("{e:?}");
     s.split('(').next().unwrap_or("").to_string()
@@ -691,22 +756,31 @@ pub fn run(run: &Run) {
         for sel in 0..9u8 {
             for cut in 0..4u8 {
                 let k = (sel + cut) % 3;
-                table.push(Case { flavor: k, wt_is_server, pre: Pre::Valid, events: vec![Ev::RequestTruncated(sel, cut)] });
+                table.push(Case { flavor: k, wt_is_server, pre: Pre::Valid, events: vec![Ev::RequestTruncated(sel, cut)], resp: Resp::Normal });
                 if (sel + cut) % 2 == 0 {
-                    table.push(Case { flavor: k, wt_is_server, pre: Pre::Valid, events: vec![Ev::ControlTruncated(sel, cut)] });
+                    table.push(Case { flavor: k, wt_is_server, pre: Pre::Valid, events: vec![Ev::ControlTruncated(sel, cut)], resp: Resp::Normal });
                 } else {
-                    table.push(Case { flavor: k, wt_is_server, pre: Pre::Valid, events: vec![Ev::SessionTruncated(sel, cut)] });
+                    table.push(Case { flavor: k, wt_is_server, pre: Pre::Valid, events: vec![Ev::SessionTruncated(sel, cut)], resp: Resp::Normal });
                 }
             }
         }
     }
     for wt_is_server in [true, false] {
         for (i, e) in singles.iter().enumerate() {
-            table.push(Case { flavor: (i % 3) as u8, wt_is_server, pre: Pre::Valid, events: vec![e.clone()] });
-            table.push(Case { flavor: (i % 3) as u8, wt_is_server, pre: Pre::Valid, events: vec![Ev::QpackEnc, e.clone()] });
+            table.push(Case { flavor: (i % 3) as u8, wt_is_server, pre: Pre::Valid, events: vec![e.clone()], resp: Resp::Normal });
+            table.push(Case { flavor: (i % 3) as u8, wt_is_server, pre: Pre::Valid, events: vec![Ev::QpackEnc, e.clone()], resp: Resp::Normal });
         }
         for pre in [Pre::DataFirst, Pre::HeadersFirst, Pre::GreaseFirst, Pre::ReservedSetting(0), Pre::ReservedSetting(1), Pre::ReservedSetting(2), Pre::ReservedSetting(3), Pre::ReservedSetting(4), Pre::DuplicateSetting] {
-            table.push(Case { flavor: 0, wt_is_server, pre, events: vec![Ev::ControlGrease] });
+            table.push(Case { flavor: 0, wt_is_server, pre, events: vec![Ev::ControlGrease], resp: Resp::Normal });
+        }
+    }
+    // every answer the raw server can give to the client's CONNECT
+    for (i, resp) in [Resp::GreaseFirst, Resp::UnknownFirst, Resp::DataFirst, Resp::SettingsFirst, Resp::WtSignalFirst].into_iter().enumerate() {
+        table.push(Case { flavor: (i % 3) as u8, wt_is_server: false, pre: Pre::Valid, events: vec![Ev::ControlGrease], resp });
+    }
+    for sel in 0..9u8 {
+        for cut in 0..4u8 {
+            table.push(Case { flavor: (sel + cut) % 3, wt_is_server: false, pre: Pre::Valid, events: vec![Ev::WtUniValid], resp: Resp::Truncated(sel, cut) });
         }
     }
     for case in &table {
